@@ -231,9 +231,98 @@ func c11x(e *env) {
 			w.Count("storm-class")
 		}
 	}
+	// flood: ONE connection sends a long run of one recoverable malformed input (the loop answers
+	// with an error and goes on), then a valid request. The valid request must be answered, and
+	// what the server holds for that connection must not have grown with the length of the run
+	// ("never needs more memory than a constant"): live heap + goroutine stacks are compared.
+	floodN := 150000
+	if thorough {
+		floodN = 1200000
+	}
+	{
+		b := stack.NewBackends()
+		b.L1.LogOn, b.L2.LogOn = false, false
+		// (text only: the binary parser ends the connection at the first unknown opcode, which the
+		// property allows)
+		floods := []struct {
+			name, proto string
+			unit        []byte
+		}{
+			{"blank text lines", "text", []byte("\r\n")},
+			{"unknown text commands", "text", []byte("bogus\r\n")},
+			{"text get without key", "text", []byte("get\r\n")},
+			{"text touch with a bad expiry", "text", []byte("touch k x\r\n")},
+		}
+		for _, fl := range floods {
+			cn := stack.Dial(b, stack.Config{Orca: "l1only", MultiRd: true, L1: "std", Proto: fl.proto})
+			raw := cn.Raw()
+			final := []byte("version\r\n")
+			if fl.proto == "bin" {
+				final = []byte{0x80, 0x0a, 0, 0, 0, 0, 0, 0, 0, 0, 0, 0, 0xfe, 0xed, 0xbe, 0xef, 0, 0, 0, 0, 0, 0, 0, 0}
+			}
+			answered := make(chan bool, 1)
+			go func() {
+				tail := []byte{}
+				buf := make([]byte, 1<<16)
+				for {
+					n, err := raw.Read(buf)
+					tail = append(tail, buf[:n]...)
+					if len(tail) > 64 {
+						tail = append([]byte(nil), tail[len(tail)-64:]...)
+					}
+					ok := false
+					if fl.proto == "text" {
+						ok = bytes.Contains(tail, []byte("VERSION "))
+					} else if len(tail) >= 24 {
+						t := tail[len(tail)-24:]
+						ok = t[0] == 0x81 && t[1] == 0x0a && t[12] == 0xfe && t[13] == 0xed && t[14] == 0xbe && t[15] == 0xef
+					}
+					if ok {
+						answered <- true
+						return
+					}
+					if err != nil {
+						answered <- false
+						return
+					}
+				}
+			}()
+			mem := func() uint64 {
+				runtime.GC()
+				var ms runtime.MemStats
+				runtime.ReadMemStats(&ms)
+				return ms.HeapAlloc + ms.StackInuse
+			}
+			before := mem()
+			chunk := bytes.Repeat(fl.unit, 4096)
+			go func() {
+				for sent := 0; sent < floodN; sent += 4096 {
+					if _, err := raw.Write(chunk); err != nil {
+						return
+					}
+				}
+				raw.Write(final)
+			}()
+			in := map[string]interface{}{"cmd": "c11x", "part": "flood", "input": fl.name, "repetitions": floodN}
+			select {
+			case ok := <-answered:
+				after := mem()
+				if !ok {
+					w.Fail(rig.GoFailure{Kind: "counterexample", What: "the connection was closed during a long run of one recoverable malformed input (" + fl.name + ") instead of being answered", Input: in})
+				} else if after > before && after-before > 24<<20 {
+					w.Fail(rig.GoFailure{Kind: "counterexample", What: "memory held by the server grew with the number of malformed inputs received on one connection (" + fl.name + ")", Input: in,
+						Detail: fmt.Sprintf("live heap + stacks: %d bytes before, %d bytes after %d repetitions", before, after, floodN)})
+				}
+			case <-time.After(120 * time.Second):
+				w.Fail(rig.GoFailure{Kind: "counterexample", What: "a valid request behind a long run of one recoverable malformed input (" + fl.name + ") was not answered within 120 s", Input: in})
+			}
+			raw.Close()
+			w.Count("flood-class")
+		}
+	}
 	w.CountN("attack-connection", int(nAttack))
 	w.CountN("bystander-round", int(nRound))
-	w.Res.Rule = "6 bystander connections (binary, own keys, every header split over two writes inside the 24 header bytes, set/get/delete rounds with fully determined replies) run while 3 attacker connections send one malformed input each (bad magic, unknown opcode, contradictory lengths, truncated header, bad text lines) and reconnect; with GOMAXPROCS 1 and with all processors, L1-only and L1/L2; a bystander reply that differs from the reply it gets alone, a timeout or a closed bystander connection is a counterexample; then a storm: each class of malformed input sent by 8 connections at once, repeatedly; the whole run happens in a child process whose death (fatal runtime error) is a counterexample"
+	w.Res.Rule = "6 bystander connections (binary, own keys, every header split over two writes inside the 24 header bytes, set/get/delete rounds with fully determined replies) run while 3 attacker connections send one malformed input each (bad magic, unknown opcode, contradictory lengths, truncated header, bad text lines) and reconnect; with GOMAXPROCS 1 and with all processors, L1-only and L1/L2; a bystander reply that differs from the reply it gets alone, a timeout or a closed bystander connection is a counterexample; then a storm: each class of malformed input sent by 8 connections at once, repeatedly; then a flood: one connection sends 150 000 (thorough 1 200 000) repetitions of one recoverable malformed input (text: blank line, unknown command, get without key, bad expiry) followed by a valid request, which must be answered while live heap + stacks stay within 24 MiB of their size before; the whole run happens in a child process whose death (fatal runtime error) is a counterexample"
 	if err := w.Finish([]string{"base.Bytes", "base.Harness"}, "unit", "(fun _ => 0%N)"); err != nil {
 		rig.Die("%v", err)
 	}
